@@ -347,7 +347,7 @@ func main() {
 		b.WriteString("</body></html>")
 		return doc{fmt.Sprintf("filler-%d", n), b.String()}
 	}
-	sizes := []doc{filler(4 << 10), filler(1 << 20)}
+	sizes := []doc{filler(4 << 10), filler(1 << 20), filler(3 << 20)}
 	if run.Thorough() {
 		sizes = append(sizes, filler(4<<20))
 	}
